@@ -4,12 +4,14 @@ PROP = dict(
         technique=("stateful PBT (rapid) of the real pruner.Pruner service (pruner.New + Run) wired to a real Blockchain as "
                    "node.New does, and of the history-prune migration, differential against an unpruned twin node and the "
                    "abstract state; virtual clock and event barrier via testing/synctest; crash-image / cancellation fault "
-                   "points at every commit of a prune; reader between the commits of a prune"),
+                   "points at every commit of a prune; reader between the commits of a prune; pre-built base chains around "
+                   "real 8192-block event-index window boundaries"),
         level_text=("Exploration with fault points: generated chains, L1-head sequences, configurations and scripts "
                     "(about a thousand per quick run, tens of thousands per thorough run), every Reader/state/event answer "
                     "compared with an unpruned twin; per probed prune the interruption index k is enumerated (quick: first, "
-                    "last, last-1 and one drawn commit; thorough: every commit up to 48). Samples the space; does not prove "
-                    "absence."),
+                    "last, last-1 and one drawn commit; thorough: every commit up to 48). About 190 quick / 4 000 thorough "
+                    "cases run on chains of 8 200 / 16 400 blocks, where persisted event-index windows exist and the floor is "
+                    "placed inside, at the edges of and across them. Samples the space; does not prove absence."),
         rule=("TestPropPruning: per case, inside a synctest bubble with a virtual clock: config drawn from backend {legacy, "
               "trie2} x retained {0,1,2,5,1000} x l2HeadsPerPrune {1,3} x target batch size {1 byte, default} x min-age {0, "
               "1h (tick default|1m)} x clock offset {0,45m,3h,20h,3y}; a fifth of the cases enable pruning late through the "
@@ -19,10 +21,29 @@ PROP = dict(
               "on copies; restart, check, resume, compare with the uninterrupted copy); a reader runs between the commits of "
               "every prune; optional final revert down to the floor, attempt below it, re-extension. "
               "TestPropMinAgeAroundReorg: skeleton placing a reorg and fresh replacement blocks next to a just-sampled "
-              "min-age floor. Non-trivial = a prune deleted >= 1 block and a query, revert or restart followed; distinct = "
+              "min-age floor. "
+              "TestPropPruningAcrossWindows (a sixth of the quick cases): the pruned node and its twin start on clones of a "
+              "base chain built once per process, 8186 or 16378 blocks (head 7 below the first / second 8192-block "
+              "event-index window boundary; ~130 blocks below and ~40 above each boundary carry generated transactions, "
+              "state diffs and dense events from 3 addresses), running-filter snapshot of the image kept or dropped; 0-15 "
+              "more blocks (window not yet / just / already completed); the first floor is aimed at a drawn position class "
+              "(0; deep inside or just below the end of window 1 / window 2; around the base head; exactly the last, first or second block of a "
+              "window at either boundary; above the boundary) through a drawn mechanism (L1 head = target + retained; "
+              "catch-up with the L1 head ahead; min-age sample taken at a restart or at a tick with the virtual clock "
+              "placed at the target's timestamp + min-age; a fifth enable pruning late so that the history-prune migration "
+              "makes the cut), retained / l2HeadsPerPrune / batch size {1 byte, 4 kB, default} / min-age {0, 1h .. 300h} / "
+              "clock gap drawn; then 4-15 steps over query / restart (graceful or not) / store / L1 head that puts the floor "
+              "on or across the next boundary / generic L1 head / reorg / idle / one revert down toward the floor across the "
+              "boundary (to the floor when near; optional restart; attempt below the floor) followed by another fork stored "
+              "back across the boundary; prunes of <= 600 blocks are fault-probed as above. The Reader API is observed over "
+              "windows around the floor, each boundary and the tip; event queries unfiltered, by address (incl. a "
+              "never-emitting one) and by key alternatives over ranges starting below / at / above the floor and at the "
+              "boundaries, all against the unpruned twin. "
+              "Non-trivial = a prune deleted >= 1 block and a query, revert or restart followed; distinct = "
               "distinct SHA-256 of config + rendered script (block hashes, L1 numbers, fault points)."),
         assumptions=["the unpruned twin (same backend) and ref.State are the oracles for retained data (C03/C07 check them independently)",
                      "memory DB + the harness' commit-counting wrapper (read-through for batches without writes) stand in for Pebble (contract equivalence is C15); a crash image is the DB after a whole batch commit (batch atomicity trusted)",
+                     "base-chain cases use the harness' ordered in-memory store (copy-on-write B-tree, treedb_test.go) instead of memory.Database, whose iterators and range deletes scan all ~85 000 keys of a 16 000-block image; TestSelfTreeDB checks it operation by operation against memory.Database on random sequences; base chains are stored once per process through a real Blockchain (re-verification of the block hash skipped for all but a sample of blocks)",
                      "testing/synctest: the pruner's goroutine is quiescent when synctest.Wait returns; time.Now/tickers are virtual inside the bubble",
                      "L1 heads recorded are monotone (finalised); reorgs in the script body only undo blocks above the L1 head; readers concurrent with a prune are modelled at commit boundaries only"],
         runs=[dict(run="^Test(Prop|Known)")],
